@@ -50,6 +50,11 @@ def main(argv=None):
         mod.worker_init(a.tier, a.seed)
     n = 0
     truncated = False
+
+    def new_agg():
+        return dict(n=0, decided=[], ok={}, skips={}, observed={})
+
+    agg = new_agg()
     for case in cases:
         if a.group and case.get("group") != a.group:
             continue
@@ -74,8 +79,27 @@ def main(argv=None):
                               f"unexpected {type(e).__name__}: {e}", traceback=tb[-1500:])
         rec = ctx.record()
         rec["wall"] = round(time.time() - tc, 4)
-        emit({"result": rec})
         n += 1
+        if rec["violations"] or n <= 2 or a.case_file:
+            emit({"result": rec})
+        else:
+            # fold conforming cases into a compact aggregate (large exhaustive tiers would not fit in memory otherwise)
+            agg["n"] += 1
+            if rec["ok"]:
+                agg["decided"].append(rec["hash"])
+            for k, v in rec["ok"].items():
+                agg["ok"][k] = agg["ok"].get(k, 0) + v
+            for k, v in rec["skips"].items():
+                agg["skips"][k] = agg["skips"].get(k, 0) + v
+            for name, d in rec["observed"].items():
+                dd = agg["observed"].setdefault(name, {})
+                for val, c in d.items():
+                    dd[val] = dd.get(val, 0) + c
+            if agg["n"] >= 400:
+                emit({"agg": agg})
+                agg = new_agg()
+    if agg["n"]:
+        emit({"agg": agg})
     import mdtraj
     emit({"done": dict(worker=a.worker, cases=n, truncated=truncated, wall=round(time.time() - t0, 2),
                        mdtraj_file=mdtraj.__file__, overlay=overlay.loaded(),
